@@ -215,6 +215,76 @@ func c09Conn(srv *svc.Server, cid int, seed uint64, nframes int) (viol [][2]stri
 	return
 }
 
+// c09Abrupt: the connection ends while messages are still queued for the writer (the write callback is slowed down for this
+// terminal): everything the read callback was handed must be unchanged after the teardown.
+func c09Abrupt(srv *svc.Server, cid int, seed uint64) (viol [][2]string, incon bool, checked int) {
+	bad := func(sig, detail string) { viol = append(viol, [2]string{sig, detail}) }
+	r := core.NewRand(seed, "c09abrupt", uint64(cid))
+	t, err := svc.Dial(srv.Addr, r.Bool(), fmt.Sprintf("%d", 4700000+cid))
+	if err != nil {
+		return nil, true, 0
+	}
+	defer t.Close()
+	svc.SlowWrite.Store(t.Phone, 3*time.Millisecond)
+	defer svc.SlowWrite.Delete(t.Phone)
+	first := uint16(0x300)
+	var burst []byte
+	n := 6 + r.Intn(8)
+	for i := 0; i < n; i++ {
+		b := make([]byte, 28+r.Intn(12))
+		for j := range b {
+			b[j] = byte(0x10 + r.Intn(0x60))
+		}
+		id := core.Pick(r, []uint16{0x0200, 0x0002, 0x0200})
+		if id == 0x0002 {
+			b = nil
+		}
+		burst = append(burst, t.Frame(id, first+uint16(i), b)...)
+	}
+	if r.Bool() {
+		t.Write(burst)
+	} else { // one frame per write (the zero-copy path of the parser)
+		for len(burst) > 0 {
+			e := bytes.IndexByte(burst[1:], 0x7e) + 2
+			t.Write(burst[:e])
+			burst = burst[e:]
+		}
+	}
+	time.Sleep(time.Duration(500+r.Intn(4000)) * time.Microsecond)
+	if r.Bool() {
+		t.Reset()
+	} else {
+		t.Close()
+	}
+	rec := svc.Lookup(t.Phone, first)
+	if rec == nil {
+		return nil, false, 0 // closed before the server read anything
+	}
+	if !rec.WaitLeave(40 * time.Second) {
+		return nil, true, 0
+	}
+	time.Sleep(20 * time.Millisecond) // the writer's own teardown runs after the leave callback
+	for _, e := range rec.ReaderLog() {
+		if e.Kind != "read" || e.Msg == nil {
+			continue
+		}
+		m := e.Msg
+		checked++
+		switch {
+		case !bytes.Equal(m.JTMessage.Body, e.Data):
+			bad("stable|body of a message handed to the read callback changed afterwards", fmt.Sprintf("abrupt end, conn %d msg serial %d: was %s now %s", cid, e.Serial, core.HexCap(e.Data, 16), core.HexCap(m.JTMessage.Body, 16)))
+		case !bytes.Equal(m.ExtensionFields.TerminalData, e.Raw):
+			bad("stable|raw frame bytes of a message handed to the read callback changed afterwards", fmt.Sprintf("abrupt end, conn %d msg serial %d", cid, e.Serial))
+		case e.HdrDump != "" && svc.DumpBytesAndStrings(m.JTMessage.Header) != e.HdrDump:
+			bad("stable|header bytes (phone number field) of a message handed to the read callback changed afterwards", fmt.Sprintf("abrupt end, conn %d msg serial %d", cid, e.Serial))
+		}
+		if len(viol) > 2 {
+			break
+		}
+	}
+	return
+}
+
 func c09Suite(c *core.Collector, seed uint64, batch int, conns, nframes int) {
 	srv, err := svc.Start(func() service.TerminalEventer {
 		r := svc.NewRecorder()
@@ -244,6 +314,21 @@ func c09Suite(c *core.Collector, seed uint64, batch int, conns, nframes int) {
 			}
 			if i == 0 {
 				c.Sample(map[string]any{"conn": cid, "equal_length_frames": nframes, "checks": n})
+			}
+		}(i)
+	}
+	for i := 0; i < 4*conns; i++ {
+		wg.Add(1)
+		go func(i int) {
+			defer wg.Done()
+			viol, incon, n := c09Abrupt(srv, batch*1000+500+i, seed)
+			c.Evals(int64(n))
+			c.Count("messages_rechecked_after_an_abrupt_end", int64(n))
+			if incon {
+				c.Inconclusive()
+			}
+			for _, v := range viol {
+				c.Violate(v[0], v[1], nil)
 			}
 		}(i)
 	}
